@@ -80,14 +80,17 @@ class G:
                 return "write(%s)" % self.any_expr(2)
             if k < 0.28:
                 return "toa(%s)" % self.any_expr(2)
+            if k < 0.40 and k >= 0.36:
+                f = r.choice(UFUNS)
+                return r.choice(["%s(%s)" % (f, self.any_expr(1)), "%s = %s(%s)" % (r.choice(NAMES), f, self.expr(1))])
             if k < 0.30:
                 g = r.choice(NAMES)
                 return r.choice(["%s = toa(%s)" % (g, self.any_expr(1)), "%s = aton(%s)" % (g, r.choice(['"12"', '"2.5"', '"q"', "sa"])),
                                  "%s = read()" % g, "read()", "%s = write(%s)" % (g, self.expr(1))])
-            if k < 0.36:
+            if k < 0.36 and k >= 0.30:
                 return "aton(%s)" % r.choice(['"12"', '"-7"', '"1.5"', '"4e1"', '"x"', '""', "sa", "sb", "ga", '"9223372036854775808"',
                                               "(%s + %s)" % (r.choice(['"1"', '"2"']), r.choice(['"0"', '".5"', '"e"']))])
-            if k < 0.67:
+            if k < 0.70:
                 g = r.choice(NAMES)
                 if r.random() < 0.3:
                     return "%s = %s + 1" % (g, g)
@@ -116,7 +119,11 @@ class G:
 
 
 PRELUDE = ["ga = 3", "gb = 10", "gc = 2.5", "gd = 0", "ge = 7", "gt = true", "gf = false",
-           "xa = [4, 5, 6, 7]", "xb = [[1, 2], \"s\", 3]", "sa = \"hello\"", "sb = \"\""]
+           "xa = [4, 5, 6, 7]", "xb = [[1, 2], \"s\", 3]", "sa = \"hello\"", "sb = \"\"",
+           # user functions of the proven class: one parameter, the body a pure expression of it and of globals
+           "fsq = (x) -> x * x", "flg = (v) -> [v > gb, -v, #xa]", "fid = (p) -> p",
+           "fix = (i) -> xa[i] + ga", "fmix = (q) -> (q + gc) * (q - 1) / gd"]
+UFUNS = ["fsq", "flg", "fid", "fix", "fmix"]
 
 
 def sessions(seed, n):
